@@ -10,6 +10,7 @@ import (
 	"path/filepath"
 	"runtime"
 	"strings"
+	"sync"
 	"testing"
 	"time"
 
@@ -532,13 +533,25 @@ func c03prop(ev *evid.Rec) func(rt *rapid.T) {
 					rt.Fatalf("well-behaved client %d received an unparseable stream (%v): %s", i, g.Bad, desc)
 				}
 			}
-			// phase D: hostile connections go away
+			// phase D: hostile connections go away - all at the same instant, while the operator's statistics page reads the
+			// counters (the counters are also what the last clause of the property is about)
+			var og sync.WaitGroup
+			for g := 0; g < 3; g++ {
+				og.Add(1)
+				go func() {
+					defer og.Done()
+					for k := 0; k < 400; k++ {
+						_ = w.Srv.Stats.Values()
+					}
+				}()
+			}
 			for _, lv := range ls {
 				lv.c.Close()
 			}
 			for _, x := range xs {
 				x.Close()
 			}
+			og.Wait()
 			settle(8 * time.Second)
 			us, err := sentinel.UserList()
 			if err != nil {
